@@ -10,7 +10,8 @@ Oracle (probe, asan flavor): every case goes through the repository's real nvm_d
   * verifier-accepted module, VM ends with VM_ERR_DECODE / VM_ERR_INVALID_OPCODE at an offset that is an
     instruction boundary of the verifier's own linear walk of the executing function   key = onwalk-decode
   * VM state outside its bounds after the run (stack_size > capacity, ...)             key = vm-state|<which>
-A sample of the cases is also given to the real `nano_vm` binary (asan, NLVERIF_FUEL set): no report, no signal.
+A sample of the cases is also given to the real `nano_vm` binary (asan, NLVERIF_FUEL set): no report, no signal
+(its exit status is the value main returned and is not judged).
 Workload: nlv/nvmfuzz.py (structure-aware mutation of compiler-produced modules, raw byte strings, truncations,
 hand-made programs; opcode table dumped from the repository by `vm_probe --dump-isa`).
 """
@@ -471,7 +472,7 @@ def replay(ctx, path):
         f = sc.file("case.nvm", blob)
         (_, r) = _cli(("replay", "", f, asan.nano_vm))
         err = clip(symbolize(r.errtext()))
-        if r.sig or r.rc == 97 or "ERROR: AddressSanitizer" in err or "runtime error:" in err:
+        if r.sig or "ERROR: AddressSanitizer" in err or "AddressSanitizer:DEADLYSIGNAL" in err or "runtime error:" in err:
             s = signature(err, r.sig, "nano_vm")
             print("nano_vm: %s\n%s" % (s[0] if s else "resource limit", err[:4000]))
             bad += 1 if s else 0
@@ -665,7 +666,8 @@ def run(ctx):
         for (kind, oc, path, _), r in pmap(_cli, cli_jobs):
             n_cli += 1
             err = clip(symbolize(r.errtext()))
-            died = bool(r.sig) or r.rc == 97 or "ERROR: AddressSanitizer" in err or "runtime error:" in err
+            # (the exit status itself is no observation: nano_vm exits with the value main returned)
+            died = bool(r.sig) or "ERROR: AddressSanitizer" in err or "AddressSanitizer:DEADLYSIGNAL" in err or "runtime error:" in err
             if r.timeout:
                 cli_out["watchdog (inconclusive)"] += 1
                 continue
@@ -681,14 +683,9 @@ def run(ctx):
                 ctx.violation(final_key(ctx, s[0], open(path, "rb").read()), "nano_vm (asan) on a %s case (probe outcome: %s): %s\n%s" % (kind, oc, s[1], err[:3500]),
                               {"case.nvm": open(path, "rb").read(), "report.txt": err, "cmd.txt": "NLVERIF_FUEL=%d nano_vm case.nvm   # asan flavor\n" % FUEL})
                 continue
-            if r.rc not in (0, 1):
-                cli_out["exit %s" % r.rc] += 1
-                ctx.violation("cli-exit|%s" % r.rc, "nano_vm ended with unexpected status %s on a %s case\n%s" % (r.rc, kind, r.brief()),
-                              {"case.nvm": open(path, "rb").read()})
-                continue
             said = ("load-reject" if ("invalid .nvm format" in err or "Invalid file size" in err) else
                     "verify-reject" if "Bytecode verification failed" in err else
-                    "run:error" if "Runtime error" in err else "run:OK" if r.rc == 0 else "other")
+                    "run:error" if "Runtime error" in err else "run:OK")
             cli_out[said] += 1
             exp = oc.split(":")[0] if oc.startswith("verify-reject") else ("run:OK" if oc == "run:OK" else "run:error" if oc.startswith("run:") else oc)
             if exp in ("load-reject", "verify-reject", "run:OK", "run:error") and said != exp:
